@@ -104,7 +104,13 @@ def draw_env(rng):
 def draw_info(rng):
     n = rng.choice([0, 0, 1, 2, 3])
     funds = [{"denom": d, "amount": str(rng.randrange(1, 10**9))} for d in rng.sample(["uatom", "ujuno", "uosmo", "x"], n)]
-    return {"sender": rng.choice(["alice", "bob", "carol", "dave"]) + str(rng.randrange(100)), "funds": funds}
+    sender = rng.choice(["alice", "bob", "carol", "dave"]) + str(rng.randrange(100))
+    if rng.random() < 0.25:
+        # a well-formed bech32 address of one of the apis in use, in its (equally valid) all-upper-case spelling, or with
+        # surrounding whitespace: the handler sees the sender as given, not a normalised form
+        addr = bech32_encode(rng.choice(API_PREFIXES), bytes(rng.randrange(256) for _ in range(20)))
+        sender = rng.choice([addr.upper(), addr.upper(), " " + addr, addr + " "])
+    return {"sender": sender, "funds": funds}
 
 
 def draw_response(rng, custom_msg=False, allow_custom=True, max_msgs=3):
